@@ -139,6 +139,15 @@ func c07Scenarios(thorough bool) []*explore.Scenario {
 				Threads: []explore.ThreadProg{w, {op(explore.Scan, ""), op(explore.Count, "")}, {op(m, "")}}, Bound: -1, QuietPop: true})
 		}
 	}
+	// F6: an Items scan while an insert splits a bucket (the keys it moves go to a bucket that did not exist when the scan
+	// began; on MS the split happens behind the scan's position): a key nobody touches must be reported exactly once
+	for i, x := range []struct {
+		base string
+		w    explore.ThreadProg
+	}{{"SP", explore.ThreadProg{op(explore.Put, "n1")}}, {"SP", explore.ThreadProg{op(explore.Put, "n2"), op(explore.Put, "n3")}}, {"MS", explore.ThreadProg{op(explore.Put, "n3")}}, {"SC", explore.ThreadProg{op(explore.Put, "nA")}}} {
+		scs = append(scs, &explore.Scenario{Name: fmt.Sprintf("SCANSPLIT-%s-%d", x.base, i), Base: x.base, Cfg: "BIGC",
+			Threads: []explore.ThreadProg{{op(explore.Scan, ""), op(explore.Count, "")}, x.w}, Bound: -1, QuietPop: true})
+	}
 	// F5: sync-after-every-write mode (Put/Delete end with an fsync inside their critical section) next to Compact and readers
 	for i, w := range []explore.ThreadProg{{op(explore.Put, "e"), op(explore.Put, "a")}, {op(explore.Delete, "a"), op(explore.Put, "n")}, {op(explore.Put, "b"), op(explore.Delete, "e")}} {
 		for j, rd := range [][]explore.Op{{op(explore.Get, "e"), op(explore.Get, "a")}, {op(explore.Has, "b"), op(explore.Count, "")}} {
